@@ -5,6 +5,7 @@ import Driver.C04
 import Driver.C05
 import Driver.C10
 import Driver.C15
+import Driver.C09
 /-
   Line-protocol driver: one operation per input line, one canonical output line per operation.
   Imports `Model/` only (no Mathlib, no proofs) so that it links as a `lean_exe`.
@@ -20,7 +21,8 @@ structure DState where
 
 def handlers : List Handler := [
   Driver.C04.handle,
-  Driver.C15.handle
+  Driver.C15.handle,
+  Driver.C09.handle
 ]
 
 def step (st : DState) (line : String) : DState × String :=
